@@ -1023,6 +1023,12 @@ def refuses_only_when(ctx: Context, rule: str, qualname: str, marker: str, condi
     conditions = list(conditions)
     for r in raises:
         fs = facts(ctx, fi, r, expand=True) | facts(ctx, fi, r, expand=False)
+        # `(E) is False` known true is `E` known false (the arms of a `match` over a tuple of tests read like that)
+        import re as _re_
+        for t_, pol_ in list(fs):
+            m_ = _re_.fullmatch(r"\((.*)\) is (True|False)", t_)
+            if m_:
+                fs.add((m_.group(1), pol_ == (m_.group(2) == 'True')))
         ok = any(c in fs for c in conditions)
         ctx.check(rule, ok, what, fi, r, construct=f"{fi.short}: `{marker}` raised under {sorted(t if pol else 'not (' + t + ')' for t, pol in fs)[:4]}")
 
